@@ -5,3 +5,7 @@ register("selection_envs", ("C08", "C02", "C03", "C04"), "selection_envs.py", qu
 register("generators", ("C18",), "generators.py", quick=["--tier", "quick"], thorough=["--tier", "thorough"])
 register("improvement_envs", ("C09",), "improvement_envs.py", quick=["--tier", "quick"], thorough=["--tier", "thorough"])
 register("datasets_persistence", ("C17", "C19"), "datasets_persistence.py", quick=["--tier", "quick"], thorough=["--tier", "thorough"])
+register("eval_losses", ("C15", "C12", "C16", "C20"), "eval_losses.py", quick=["--tier", "quick"], thorough=["--tier", "thorough"])
+register("decoding_dist", ("C10",), "decoding_dist.py", quick=["--tier", "quick"], thorough=["--tier", "thorough"])
+register("sched_episodes", ("C07", "C02", "C03", "C04"), "sched_episodes.py", quick=["--tier", "quick"], thorough=["--tier", "thorough"])
+register("routing_bruteforce", ("C01", "C02", "C03", "C05", "C06"), "routing_bruteforce.py", quick=["--tier", "quick"], thorough=["--tier", "thorough"])
